@@ -415,7 +415,7 @@ func init() {
 func TestC03(t *testing.T) {
 	st := statsFor("C03")
 	// (c) every sequence of line kinds up to a bounded length, from every parked state.
-	maxLen := n(3, 4)
+	maxLen := n(2, 4)
 	var cnt, nt int64
 	for pi, pre := range parkPrefixes {
 		ml := maxLen
